@@ -393,10 +393,20 @@ def check(case: Dict[str, Any]) -> Dict[str, Any]:
                     return True
                 return due + delay < x <= due + 2 * delay + EPS and any(abs(x - y - delay) <= EPS for y in all_times)
 
+            first_sighting = not any(v2 is not v and v2['key'] == v['key'] and v2['c'] < c for v2 in vs_all)
+
             def ok(s: float) -> bool:
-                if s + step + delay + EPS >= end:
+                due = s + step
+                if due + EPS >= end:
                     return True
-                return any(ok(s2) for s2 in times if s2 > s and in_window(s2, s + step))
+                if due + delay + EPS >= end:
+                    # the step is due before the record ends, but a full delay of lateness would carry it past the end. It may be
+                    # missing only if something really holds it: the rate limit (the browser's previous query less than one delay
+                    # before the end), or - for a record seen before - a schedule kept by the avoid-churn rule
+                    prev = max([y for y in all_times if y <= due + EPS] or [-1e18])
+                    if not first_sighting or prev + delay + EPS >= end:
+                        return True
+                return any(ok(s2) for s2 in times if s2 > s and in_window(s2, due))
 
             first = c + 0.75 * T
             if first + delay + EPS < end:
